@@ -35,7 +35,10 @@ from bermuda import Triangle, Metadata, Cell, CumulativeCell, IncrementalCell
 
 D = datetime.date
 JOIN_TYPES = ["full", "inner", "left", "right", "left_anti", "right_anti"]
-ON_SUBSETS = [None, ["country"], ["k"], ["country", "k"]]
+# all six top-level attributes (in an order of their own): every detail is then outside `on` -- cells that differ
+# in details only must still pair and come back with the details removed
+SIX = ["currency", "risk_basis", "per_occurrence_limit", "country", "loss_definition", "reinsurance_basis"]
+ON_SUBSETS = [None, ["country"], ["k"], ["country", "k"], SIX]
 BATCH = 1500
 
 
@@ -308,6 +311,35 @@ def add_coalesce(ctx, b, ts, tag, digest):
     ctx.count(f"{tag}/coalesce/n={len(ts)}")
 
 
+def add_coalesce_forms(ctx, b, rng, ts, tag, digest):
+    """the argument's container (merge.py:190-191): the function `coalesce` takes a LIST and refuses anything else
+    with ValueError (expected table below -- the model's argument is a list by type, so the refusal is compared
+    with this table, not with the model); the method `Triangle.coalesce` re-packs its argument into a list, so
+    every iterable of triangles gives the list's result (compared with the model as usual)."""
+    non_lists = [("tuple", lambda: tuple(ts)), ("iterator", lambda: iter(ts)), ("set", lambda: set(ts)),
+                 ("dict", lambda: {i: t for i, t in enumerate(ts)}), ("None", lambda: None),
+                 ("a Triangle", lambda: ts[0] if ts else Triangle([]))]
+    for name, mk in rng.sample(non_lists, 3):
+        st, v = call(lambda: bermuda.coalesce(mk()))
+        ctx.count(f"{tag}/coalesce-container/function({name})")
+        ctx.evaluations += 1
+        if st == "ok" or v != "ValueError":
+            ctx.fail(f"coalesce({name} of triangles) is not refused with ValueError (only a list is accepted)",
+                     {"ts": [[w_cell(c) for c in t.cells] for t in ts], "container": name},
+                     {"impl": "returned a triangle" if st == "ok" else v})
+    # function with a genuine list; method with tuple / iterator / generator of the others
+    forms = [("function(list)", lambda: bermuda.coalesce(list(ts)))]
+    if ts:
+        forms += [("method(tuple)", lambda: ts[0].coalesce(tuple(ts[1:]))),
+                  ("method(iterator)", lambda: ts[0].coalesce(iter(ts[1:]))),
+                  ("method(generator)", lambda: ts[0].coalesce(t for t in ts[1:]))]
+    for name, f in forms:
+        r = call(f)
+        b.add({"op": "coalesce", "ts": [b.idxs(t.cells) for t in ts], "impl": impl_cells(b, r)},
+              {"tag": tag, "digest": digest + ":coalesce:" + name})
+        ctx.count(f"{tag}/coalesce-container/{name}")
+
+
 def add_statics_item(ctx, b, ta, tb, statics, tag, digest):
     r = call(do_add_statics, ta, tb, statics)
     b.add({"op": "addStatics", "a": b.idxs(ta.cells), "b": b.idxs(tb.cells),
@@ -448,6 +480,17 @@ def random_stream(ctx, b, rng, n_cases):
             on = None
         elif r < 0.4:
             on = []
+        elif r < 0.55:
+            # every top-level attribute, permuted; sometimes a superset (detail keys / "details" / "loss_details" /
+            # a repeated name): details not named in `on` still have to be ignored and stripped
+            on = rng.sample(SIX, 6)
+            r2 = rng.random()
+            if r2 < 0.25 and detail_keys:
+                on.insert(rng.randrange(0, 7), rng.choice(detail_keys))
+            elif r2 < 0.35:
+                on.insert(rng.randrange(0, 7), rng.choice(["details", "loss_details"]))
+            elif r2 < 0.4:
+                on.append(rng.choice(SIX))
         else:
             pool = attr_pool + detail_keys
             on = rng.sample(pool, rng.randrange(1, min(6, len(pool)) + 1))
@@ -470,6 +513,8 @@ def random_stream(ctx, b, rng, n_cases):
         if st4 == "ok":
             order = rng.choice([[ta, tb, tc], [tb, ta], [tc, tb, ta], [ta], [ta, ta], []])
             add_coalesce(ctx, b, order, tag, f"{dg}:{tri_digest(tc)}:{len(order)}")
+            if i % 4 == 0:
+                add_coalesce_forms(ctx, b, rng, order, tag, f"{dg}:{tri_digest(tc)}:{len(order)}")
         ctx.case(digest=f"{dg}:{on}", nontrivial=len(ta) > 0 and len(tb) > 0,
                  sample={"stream": tag, "kind": kind, "n_left": len(ta), "n_right": len(tb), "on": on} if i < 3 else None)
         ctx.count(f"rand/kind={kind}")
@@ -708,10 +753,10 @@ if __name__ == "__main__":
         correspondence=correspondence, level="proof",
         rule="exhaustive: every pair (a, b) of sub-triangles of a 5- and two 4-coordinate (thorough: 6) two-slice universes whose "
              "left/right versions differ in values, field sets, partly metadata/prev/evaluation date x 6 join types x "
-             "every `on` subset of {country, k} for join and merge, every pair for add_statics / period_merge, every "
+             "every `on` subset of {country, k} and the list of all six top-level attributes for join and merge, every pair for add_statics / period_merge, every "
              "triple of sub-triangles for coalesce; designed + seeded random universes, cumulative / incremental / "
              "plain cells. random: larger pairs (overlap, disjoint, empty, self, class mismatch, duplicate coordinates, "
-             "prev-only variants), random `on` over all attributes and detail keys, unknown join type. sequence: 8-14 "
+             "prev-only variants), random `on` over all attributes and detail keys (15%: all six top-level attributes permuted, +- a detail key), unknown join type, coalesce given non-list containers (ValueError) / method with any iterable. sequence: 8-14 "
              "calls on one target with two sources, each call twice, results spoiled in between, accessors before/after. distinct = "
              "distinct (universe, masks, parameters) / input dump; non-trivial = both operands non-empty",
         assumptions=["operands are Triangles (sorted cell lists of one class) with NaN-free values",
